@@ -21,6 +21,7 @@ EXPLANATION = (
     "challenge is an input of that challenge's derivation. Plus R3: every sub-verdict (Result<bool>/bool of "
     "a nested verifier or of Merkle path verification) is consumed. A missing path proves the component is dead in "
     "the decision, i.e. replacing it leaves acceptance unchanged while the reference relation changes.")
+EXPLANATION += (" Shared rules: R4a (proof-vs-claims zips are length-guarded), the every-path form of R1m on the listed component pairs, R4s (no positional pairing after an element-dropping adaptor on one side).")
 RULE = ("instances = verifier anchors x {values, point, commitment fields, proof fields, key fields, key accessor "
         "results, squeeze results} in sponge-cut mode, plus one instance per verdict call site; holds iff OUTCOME is "
         "reachable; non-trivial = source present")
@@ -78,6 +79,25 @@ def run(rep, ctx, tier):
         rep.count("squeeze_sites", n_sq)
         R3.run(rep, ctx, a, "R3")
         R3.run_option(rep, ctx, a, "R3")
+        from ..rules import lenguard as R4
+        R4.run_shifted_pairing(rep, ctx, a, "R4s")
+        # the relation's comparisons hold for every element: a zip of the proof list with the claims is length-guarded
+        # and the listed component pairs meet on every non-refusing path (shared with C03)
+        R4.run_zip(rep, ctx, a, "R4a")
+        from . import c03 as C03
+        from ..rules import meet as R1M
+        for name, sa, sb in C03.MEETS.get(a.key, []):
+            if name not in C03.EVERY_PATH:
+                continue
+            A, B = C03.meet_starts(ctx, a, sa), C03.meet_starts(ctx, a, sb)
+            if not A or not B:
+                rep.add("R1m", "%s:meet:%s" % (a.key, name), False, "component not found in %s (fail closed)" % a.key, a.body.span)
+                continue
+            ok, detail, where = R1M.check(ctx, a, A, B)
+            if ok:
+                ok, detail, where2 = R1M.check_every_path(ctx, a, A, B)
+                where = where2 or where
+            rep.add("R1m", "%s:meet-on-every-path:%s" % (a.key, name), ok, "%s: %s" % (name, detail), where)
         rep.count("bodies_with_loops", R1D.run_last_value(rep, ctx, a, "R1L"))
 
 
